@@ -2,6 +2,7 @@
 from .. import anchors as A
 from .. import fanout as F
 from ..facts import Callee, AnchorError
+from .. import datarules as D
 
 PROP = "C13"
 EXPLANATION = (
@@ -155,3 +156,13 @@ def run(ctx, report):
         report.guard("C13.FANOUT", F.lifecycle_siblings, ctx, report, "C13.FANOUT", facts, config, EXCEPTIONS)
         report.guard("C13.FANOUT", setup_extra, ctx, report, facts, config)
         report.guard("C13.NOCLOBBER", noclobber, ctx, report, facts, config)
+        counts = D.all_impls(ctx, report, facts, config, "C13.COMPOSE", only_kinds=("tuple",), methods=("setup",))
+        report.floor("C13.COMPOSE.TUPLE", "tuple impls (setup composition)", counts["tuple"], 26, config=config)
+    try:
+        probe = [f for f in ctx.all_facts("probe") if f.crate == "shred_probe"]
+        n = 0
+        for f in probe:
+            n += D.all_impls(ctx, report, f, "probe", "C13.COMPOSE", label_prefix="probe:", only_kinds=("derive",), methods=("setup",))["derive"]
+        report.floor("C13.COMPOSE.DERIVE", "derive expansions (setup composition)", n, 15, config="probe")
+    except Exception as e:
+        report.ob("C13.COMPOSE.DERIVE", "EXTRACT", False, "probe crate could not be analysed: %s" % str(e)[-300:])
